@@ -99,6 +99,10 @@ def _enter(key, args):
             event("sig", f"argument declared i8 receives the non-integer {_num(v)!r} (truncated by the compiled code)")
         if t == "f8" and (isinstance(v, complex) or (hasattr(v, "re") and hasattr(v, "im"))):
             event("sig", "argument declared f8 receives a complex value")
+        if t == "f8[:]" and isinstance(v, (list, tuple)):
+            EVENTS.append(dict(kind="sig", module=key[0], func=key[1], detail=f"argument declared f8[:] receives a Python {type(v).__name__} of length {len(v)}: "
+                               f"not an array (the compiled dispatcher cannot type it; the interpreter accepts it)",
+                               args=[_num(a) if not (a is v) else {"pylist": [float(x) for x in v]} for a in args]))
         if t == "f8[:]" and isinstance(v, np.ndarray) and v.dtype != object:
             # the compiled definition exists for a writable, one-dimensional float64 array only
             why = []
@@ -158,6 +162,52 @@ def _njit_sig(dec):
     return ""
 
 
+def _complex_return(node, c16_names):
+    """static typing of the return expressions of one kernel (flow-insensitive): complex iff it contains a complex literal, a call of a
+    c16-declared kernel or a variable assigned from such, not under .real/.imag/abs(); numba refuses (TypingError) to compile a kernel
+    declared f8 whose return type unifies to complex128, while the interpreter happily returns (x+0j)"""
+    cvars = set()
+
+    def is_c(e):
+        if isinstance(e, ast.Constant):
+            return isinstance(e.value, complex)
+        if isinstance(e, ast.Name):
+            return e.id in cvars
+        if isinstance(e, ast.Attribute):
+            if e.attr in ("real", "imag"):
+                return False
+            return is_c(e.value)
+        if isinstance(e, ast.Call):
+            fn = e.func
+            name = fn.id if isinstance(fn, ast.Name) else (fn.attr if isinstance(fn, ast.Attribute) else "")
+            if name in ("abs", "real", "imag", "float", "int"):
+                return False
+            if name in c16_names:
+                return True
+            if isinstance(fn, ast.Attribute) and isinstance(fn.value, ast.Name) and fn.value.id == "np":
+                return any(is_c(a) for a in e.args)  # numpy ufuncs propagate complexness
+            return False  # other kernels are declared f8
+        if isinstance(e, ast.BinOp):
+            return is_c(e.left) or is_c(e.right)
+        if isinstance(e, ast.UnaryOp):
+            return is_c(e.operand)
+        if isinstance(e, ast.IfExp):
+            return is_c(e.body) or is_c(e.orelse)
+        if isinstance(e, ast.Subscript):
+            return is_c(e.value)
+        return False
+
+    for _ in range(3):  # propagate through chains of assignments
+        for st in ast.walk(node):
+            if isinstance(st, ast.Assign) and is_c(st.value):
+                for t in st.targets:
+                    if isinstance(t, ast.Name):
+                        cvars.add(t.id)
+            if isinstance(st, ast.AugAssign) and isinstance(st.target, ast.Name) and is_c(st.value):
+                cvars.add(st.target.id)
+    return [getattr(r, "lineno", 0) for r in ast.walk(node) if isinstance(r, ast.Return) and r.value is not None and is_c(r.value)]
+
+
 def kernel_modules():
     import yadism
     import yadism.coefficient_functions as cf
@@ -176,6 +226,7 @@ def kernel_modules():
 def instrument():
     """returns the static findings (signature problems) as a list of dicts"""
     static = []
+    c16_names = {"nielsen"}
     for mod in kernel_modules():
         try:
             src = inspect.getsource(mod)
@@ -208,6 +259,12 @@ def instrument():
                     static.append(dict(kind="sig", module=key[0], func=key[1], args=[],
                                        detail=f"declared signature {sigs[0]!r}: type(s) {lossy} cannot hold the float64/int64/complex128 values of the Python body "
                                               f"(the compiled kernel rounds/truncates what the interpreter returns exactly)"))
+                if sig[0] == "f8":
+                    lines = _complex_return(node, c16_names)
+                    if lines:
+                        static.append(dict(kind="sig", module=key[0], func=key[1], args=[],
+                                           detail=f"declared to return f8 but the return expression at line {lines[0]} is complex-typed (a c16 kernel's value or a "
+                                                  f"complex literal without .real): numba cannot compile it (TypingError), the interpreter returns (x+0j)"))
                 if len(sig[1]) != len(node.args.args):
                     static.append(dict(kind="sig", module=key[0], func=key[1], args=[],
                                        detail=f"declared signature {sigs[0]!r} has {len(sig[1])} arguments, the function {len(node.args.args)}"))
@@ -278,10 +335,19 @@ REPLAY_SRC = r'''
 import importlib, json, math, sys, cmath
 import numpy as np
 spec = json.loads(sys.argv[1])
-mod = importlib.import_module(spec["module"])
+try:
+    mod = importlib.import_module(spec["module"])
+except Exception as e:
+    # kernels with an explicit signature are compiled when the module is imported: the module imports in interpreted mode (the checking
+    # process has it), so failing here IS the divergence
+    print(json.dumps(dict(same=False, compiled="import raises " + type(e).__name__ + ": " + str(e)[:160].replace("\n", " "), interpreter="module imports and the kernel returns a value",
+                          kinds=["raise", "value"])))
+    sys.exit(0)
 f = getattr(mod, spec["func"])
 assert hasattr(f, "py_func"), "JIT is not enabled in the replay process"
 def conv(a):
+    if isinstance(a, dict) and "pylist" in a:
+        return list(a["pylist"])
     if isinstance(a, dict):
         arr = np.array(a["array"], dtype=a["dtype"])
         if a.get("readonly"):
